@@ -169,6 +169,22 @@ def small_sprites(rng: random.Random, n: int, **kw) -> List[Tuple[dict, bytes]]:
     return out
 
 
+def extreme_canvas_sprites(rng: random.Random, n: int) -> List[Tuple[dict, bytes]]:
+    """tilemap sprites whose canvas width or height sits at the top of the u16 range (the other dimension tiny)"""
+    out = []
+    while len(out) < n:
+        s = gen.gen_sprite(rng, max_canvas=6, max_layers=3, max_frames=2, rich=False)
+        if not (s["tilesets"] and any(c["kind"] == "tilemap" for c in s["cels"].values())):
+            continue
+        big = rng.choice([65535, 65534, 65521, 65520, 65519, 32768, 32767])
+        if rng.random() < 0.5:
+            s["width"], s["height"] = big, rng.randint(1, 2)
+        else:
+            s["width"], s["height"] = rng.randint(1, 2), big
+        out.append((s, gen.encode(s, None, rng)))
+    return out
+
+
 def small_corpus(limit: int) -> List[str]:
     return [p for p in corpus_files() if os.path.getsize(p) <= limit]
 
@@ -717,6 +733,15 @@ def direct_C19(s, data, blk) -> List[str]:
     for (l, f), im in images_of(blk, 27).items():
         if cel_imgs.get((f, l)) != im:
             out.append("tilemap image of layer %d frame %d differs from its cel's image" % (l, f))
+    # a frame in which exactly one visible layer has a cel renders exactly that cel's image
+    vis = gen.visible_of(s)
+    frame_imgs = images_of(blk, 22)
+    for (f,), fim in frame_imgs.items():
+        ls = [l for l in range(len(s["layers"])) if vis[l] and (f, l) in s["cels"]]
+        if len(ls) == 1 and (f, ls[0]) in cel_imgs and cel_imgs[(f, ls[0])] != fim:
+            out.append("frame %d has exactly one visible layer with a cel (layer %d) but its image differs from that cel's image" % (f, ls[0]))
+        if not ls and any(fim[2:]):
+            out.append("frame %d has no visible cel but is not fully transparent" % f)
     return out[:3]
 
 
@@ -820,7 +845,7 @@ def check_C08(tier, seed):
             s = gen.gen_sprite(rng, max_canvas=12, max_layers=4, max_frames=2, rich=False)
             if s["tilesets"] and any(c["kind"] == "tilemap" for c in s["cels"].values()):
                 out.append((s, gen.encode(s, gen.random_choices(rng), rng)))
-        return out
+        return out + extreme_canvas_sprites(rng, 10 if tier == "quick" else 100)
     return run_sprites("C08", tier, seed, 12, 50, 500, dict(max_canvas=12, max_layers=4, max_frames=2, rich=False),
                        [1, 19, 20, 25, 26, 27], direct_C08,
                        "structured sprites with tilesets (tile sizes 1..5 x 1..5, 1-6 tiles, three pixel formats) and tilemap cels of any stored size at "
@@ -1129,7 +1154,16 @@ def check_C18(tier: str, seed: int) -> int:
         meta = []
         for i in range(n):
             wd, ht = rng.randint(1, 24 if tier != "quick" else 10), rng.randint(1, 24 if tier != "quick" else 10)
-            px = [rng.randrange(2 ** 32) for _ in range(wd * ht)]
+            style = rng.choice(["random", "rowalpha", "colalpha", "alpha0", "fewvalues"])
+            px = []
+            row_a = [rng.choice([0, 0, 255, 1]) for _ in range(ht)]
+            col_a = [rng.choice([0, 0, 255, 1]) for _ in range(wd)]
+            for y in range(ht):
+                for x in range(wd):
+                    rgb = rng.randrange(1, 2 ** 24) if style != "fewvalues" else rng.choice([0, 1, 0xFFFFFF, 0x010203])
+                    a = {"random": rng.randrange(256), "rowalpha": row_a[y], "colalpha": col_a[x], "alpha0": 0,
+                         "fewvalues": rng.choice([0, 255])}[style]
+                    px.append(rgb | (a << 24))
             lines.append("E %d %d %s" % (wd, ht, " ".join(map(str, px))))
             meta.append(("E", wd, ht, px))
         # palettes with duplicates and indices >= 256
@@ -1850,6 +1884,8 @@ def check_C16(tier: str, seed: int) -> int:
         items: List[Tuple[str, str]] = []
         for s, data in small_sprites(rng, 60 if tier == "quick" else 600, max_canvas=8, max_layers=5, max_frames=3):
             items.append((w.put(data), "generated"))
+        for s, data in extreme_canvas_sprites(rng, 12 if tier == "quick" else 100):
+            items.append((w.put(data), "tilemap sprite with canvas %dx%d" % (s["width"], s["height"])))
         stream = corruption_stream(rng, "quick", w, scale=0.08 if tier == "quick" else 0.5)
         pre = vplib.impl_observe("release", [p for p, _ in stream], w.dir, 0, mem_kb=2 * 1024 * 1024)
         loadable = [stream[i] for i in range(len(stream)) if outcome(pre[i]) == 0]
@@ -1868,6 +1904,10 @@ def check_C16(tier: str, seed: int) -> int:
                     direct_fail.append({"what": "load or concurrent observation failed", "profile": prof, "input": desc, "comments": b[1][:3] if b else None,
                                         "_data": open(p, "rb").read()})
                     continue
+                l52 = next((l for l in b[0] if l[0] == 52), None)
+                if l52 is None or l52[1] != 1:
+                    direct_fail.append({"what": "results depend on the order of earlier calls (a fresh load observed after a reversed rendering pre-pass differs)",
+                                        "profile": prof, "input": desc, "_data": open(p, "rb").read()})
                 l50 = next((l for l in b[0] if l[0] == 50), None)
                 if l50 is None or l50[1:4] != [1, 1, 1]:
                     direct_fail.append({"what": "observations differ between repetitions / reloads / threads (repeat_ok, reload_ok, threads_ok) = %s" % (l50[1:4] if l50 else None),
